@@ -655,6 +655,11 @@ def subscript(I, run, base: Value, idx, node) -> Value:
             for k, v in c.sym_items:
                 if k.key() == idx.key():
                     return v
+            if not c.open and not c.sym_items and c.items and isinstance(idx, (Sym, App)):
+                hit = _select_key(I, run, c, idx, node)
+                if hit is _NOKEY:
+                    I.raise_builtin(run, "KeyError", node, idx)
+                return c.items[hit]
             return App("index", (base, idx))
         if isinstance(c, HList):
             if isinstance(idx, C) and isinstance(idx.v, int):
@@ -904,6 +909,30 @@ def _method_kind(name, rk):
     return None
 
 
+_NOKEY = object()
+
+
+def _select_key(I, run, c: HDict, k: Value, node):
+    """Which constant key of a closed dict a symbolic key equals on this path (explored one alternative per key, plus none)."""
+    keys = list(c.items.keys())
+    cands = []
+    for kk in keys:
+        r = decide_cmp(I, run, "==", k, C(kk), node, fork=False)
+        if r is True:
+            return kk
+        if r is None:
+            cands.append(kk)
+    if not cands:
+        return _NOKEY
+    ch = run.choose(len(cands) + 1, I.locof(node), f"{k!r} is one of the keys {cands!r}")
+    if ch < len(cands):
+        _force_eq(I, run, k, C(cands[ch]), True, node)
+        return cands[ch]
+    for kk in cands:
+        _force_eq(I, run, k, C(kk), False, node)
+    return _NOKEY
+
+
 def _list_method(I, run, recv, c: HList, name, args, kwargs, node) -> Value:
     if name == "append":
         c.items.append(args[0])
@@ -985,6 +1014,9 @@ def _dict_method(I, run, recv, c: HDict, name, args, kwargs, node) -> Value:
         for kk, vv in c.sym_items:
             if kk.key() == k.key():
                 return vv
+        if not c.open and not c.sym_items and c.items and name == "get":
+            hit = _select_key(I, run, c, k, node)
+            return c.items[hit] if hit is not _NOKEY else default
         return App("m:" + name, (recv,) + tuple(args))
     if name == "update":
         if args:
@@ -1053,6 +1085,15 @@ def call(I, run, fn: Value, args: List[Value], kwargs: Dict[str, Value], node) -
                     return C(int.from_bytes(*[a.v for a in ra], **{k: I.resolve(run, v).v for k, v in kwargs.items()}))
                 except (TypeError, ValueError) as e:
                     I.raise_builtin(run, type(e).__name__, node, C(str(e)))
+            order = ra[1] if len(ra) > 1 else kwargs.get("byteorder", C("big"))
+            if len(ra) >= 1 and isinstance(order, C) and order.v in ("big", "little") and not kwargs.get("signed"):
+                t = App("beint" if order.v == "big" else "leint", (ra[0],), "int")
+                ln = _b_len(I, run, [ra[0]], {}, node)
+                f = run.fact(t)
+                f.lo = max(f.lo, 0)
+                if isinstance(ln, C) and isinstance(ln.v, int) and ln.v <= 16:
+                    f.hi = min(f.hi, 2 ** (8 * ln.v) - 1)
+                return t
             return App("int.from_bytes", tuple(ra), "int")
         if name.startswith("builtins."):
             b = BUILTINS.get(name[9:])
@@ -1082,6 +1123,13 @@ def call(I, run, fn: Value, args: List[Value], kwargs: Dict[str, Value], node) -
         if isinstance(recv, C):
             return call_cmethod(I, run, recv, mname, args, kwargs, node)
         if k == "int" and mname in ("to_bytes", "bit_length"):
+            if mname == "to_bytes":
+                a = [I.resolve(run, x) for x in args]
+                n = a[0] if a else kwargs.get("length")
+                order = a[1] if len(a) > 1 else kwargs.get("byteorder", C("big"))
+                order = C(EXT_CONST[order.name]) if isinstance(order, Ext) and order.name in EXT_CONST else order
+                if isinstance(n, C) and isinstance(order, C) and order.v in ("big", "little") and not kwargs.get("signed"):
+                    return App("be" if order.v == "big" else "le", (recv, n), "bytes")  # canonical: same term as struct.pack("!H"/"!Q", x)
             return App("m:" + mname, (recv,) + tuple(args), "bytes" if mname == "to_bytes" else "int")
         if k == "dict" or (k is None and mname == "get" and isinstance(recv, (Sym, App)) and run.kinds.get(recv.key()) == "dict"):
             pass
@@ -1203,6 +1251,8 @@ def _b_len(I, run, args, kwargs, node):
                 return hi
     if isinstance(v, App) and v.op in ("m:encode",) and isinstance(v.args[0], App) and v.args[0].op == "chr":
         return C(1) if v.args[1:] and v.args[1] == C("latin-1") else App("len", (v,), "int")
+    if isinstance(v, App) and v.op in ("be", "le") and isinstance(v.args[1], C):
+        return v.args[1]
     if isinstance(v, App) and v.op == "pack" and isinstance(v.args[0], C):
         sz = {"!H": 2, "!Q": 8, "!I": 4, ">H": 2, ">Q": 8, "<H": 2, "<Q": 8}.get(v.args[0].v)
         if sz is not None:
@@ -1493,6 +1543,12 @@ def _b_type(I, run, args, kwargs, node):
 
 def _b_hasattr(I, run, args, kwargs, node):
     v, n = I.resolve(run, args[0]), I.resolve(run, args[1])
+    if isinstance(v, Ext) and isinstance(n, C) and v.name in ("errno", "socket", "ssl", "select", "selectors", "os", "sys", "struct", "signal"):
+        import importlib
+        try:
+            return C(hasattr(importlib.import_module(v.name), n.v))  # a stdlib module of the build platform, never repo code
+        except ImportError:
+            pass
     if isinstance(v, Ext) and I.cfg.assume_hasattr:
         return TRUE
     if isinstance(v, Ref) and isinstance(n, C):
@@ -1578,7 +1634,24 @@ def _b_format(I, run, args, kwargs, node):
     return App("format", (v, spec), "str")
 
 
+def _b_divmod(I, run, args, kwargs, node):
+    a, b = I.resolve(run, args[0]), I.resolve(run, args[1])
+    if isinstance(a, C) and isinstance(b, C):
+        try:
+            q, r = divmod(a.v, b.v)
+            return Tup((C(q), C(r)))
+        except (ZeroDivisionError, TypeError) as e:
+            I.raise_builtin(run, type(e).__name__, node)
+    return Tup((binop(I, run, ast.FloorDiv(), a, b, node), binop(I, run, ast.Mod(), a, b, node)))
+
+
+def _b_object(I, run, args, kwargs, node):
+    return run.alloc(HObj("builtins.object", {}))  # a fresh identity: sentinels compare by `is`
+
+
 BUILTINS = {
+    "object": _b_object,
+    "divmod": _b_divmod,
     "format": _b_format,
     "len": _b_len, "isinstance": _b_isinstance, "int": _b_int, "float": _b_float, "str": _b_str, "repr": _b_repr,
     "bool": _b_bool, "callable": _b_callable, "min": _b_minmax("min"), "max": _b_minmax("max"), "range": _b_range,
